@@ -80,6 +80,12 @@ class Collector:
         from . import engine as E
 
         self.obligations += 1
+        if not model and E.LAST_CTX is not None:
+            # a concrete point on the failing path, so that the replay runs the same path
+            try:
+                model = E.model_dict(E.prove(E.LAST_CTX, False, timeout=10000).model)
+            except BaseException:
+                model = {}
         self.violations.append(dict(site=site, kind=kind, shape=shape or {}, config=self.cfg, desc=desc,
                                     witness=E.jsonable(witness), model=E.jsonable(model or {}), claim=None))
 
